@@ -29,6 +29,19 @@ THEOREMS = [
     dict(name="Snow.C08.stats_at_nucleation_instant_0D", clause="0D: T_nuc, t_nuc are those of the break step", strength="full"),
     dict(name="Snow.C08.Tnuc_order_of_run", clause="order of the four reported temperatures, on the run's result", strength="full"),
     dict(name="Snow.C08.nonvacuous", clause="hypotheses are satisfiable (concrete crossing run, well-formed grid)", strength="nonvacuity"),
+    dict(name="Snow.S2D.plan_eval_eq_simpson", clause="2D: the Simpson plan of the 2D model is scipy's simpson (every numeric instance)", strength="full"),
+    dict(name="Snow.S2D.coolLoop_eq", clause="2D: S2D.coolLoop is the generic loopUntil on states built from the 2D model's own step functions", strength="full"),
+    dict(name="Snow.C08.nuc_first_crossing_2D", clause="2D: cooling ends at step i iff F_nuc > F_rand at i and at no earlier step", strength="full"),
+    dict(name="Snow.C08.no_crossing_raises_2D", clause="2D: no nucleation iff the hazard never crosses", strength="full"),
+    dict(name="Snow.C08.E_is_riemann_sum_2D", clause="2D: E_i = sum_{j<=i} K_v,j dt", strength="full"),
+    dict(name="Snow.C08.Kv_is_quadrature_2D", clause="2D: K_v = simpson(2 pi simpson(r J, r), z), J = kb (T_eq_l - T)^b on the supercooled mask", strength="full"),
+    dict(name="Snow.C08.E_mono_2D", clause="2D: E never decreases (weights w_z 2 pi r w_r >= 0)", strength="full"),
+    dict(name="Snow.C08.Tnuc_stats_order_2D", clause="2D: min <= mean <= max", strength="full"),
+    dict(name="Snow.C08.Tnuc_kin_bounds_2D", clause="2D: min <= T_kin <= T_eq_l when K_v > 0", strength="full"),
+    dict(name="Snow.C08.Tnuc_kin_else_2D", clause="2D: T_kin = 273.15 K when K_v <= 0", strength="full"),
+    dict(name="Snow.C08.stats_at_nucleation_instant_2D", clause="2D: the four temperatures and t_nuc are those of the field of the break step", strength="full"),
+    dict(name="Snow.C08.Tnuc_order_of_run_2D", clause="2D: order of the four reported temperatures, on the run's result", strength="full"),
+    dict(name="Snow.C08.nonvacuous_2D", clause="2D hypotheses are satisfiable (well-formed 30 x 15 grid)", strength="nonvacuity"),
 ]
 TRUSTED = [
     "Lean 4.33 kernel; axioms per theorem listed under coverage.axioms",
@@ -37,7 +50,7 @@ TRUSTED = [
     "(observed agreement is bit-for-bit except np.mean's pairwise summation)",
     "SnowModel/Simpson.lean models scipy.integrate.simpson (compared with SciPy, not proved equal)",
     "numpy's legacy generator and scipy.stats.norm.ppf: their outputs (xi, F_rand) are inputs of the model",
-    "2D: no Lean model in this work package - covered by the predicates on real 2D runs only",
+    "2D model SnowModel/Snowing2D.lean (work package G) with all flags false = the repaired code in /repo; tied here by real 2D runs",
 ]
 ASSUMPTIONS = [
     "stochastic nucleation (cnTemp = None); geometry with height > 0, A >= 0, Nz >= 3 for the quadrature facts",
@@ -53,7 +66,7 @@ EXPLANATION = ("Lean theorems about the cooling-loop fold of the 0D/1D models + 
                "against Snowing.run(); the property itself re-evaluated on the real recorded fields with an "
                "independent quadrature")
 PARALLEL = True
-LEVEL_TEXT = ("Lean 4 theorems about executable models of _run_0D and _run_1D (exact real arithmetic), tied to /repo on every run by a differential check (bit-for-bit agreement observed except np.mean). Proved in full for 0D and 1D: nucleation at the first step with F_nuc > F_rand and at no other (fold invariant of the cooling loop); E is the Riemann sum of K_v dt with K_v = J V (0D) / A simpson(J_z, z) (1D) over the supercooled mask; E is non-decreasing; the weights of scipy's simpson on a uniform grid are derived from its formula for both parities (odd: h/3[1,4,2,...,4,1]; even: last three 5h/4, h, 5h/12) and are non-negative; min <= mean <= max; min <= T_kin <= T_eq_l when K_v > 0 and T_kin = 273.15 K otherwise; the four numbers are those of the field of the break step. PARTIAL with respect to the property's quantifier: the 2D model (r-weighted double quadrature) has no theorem in this check; 2D is covered only by evaluating the clauses on real 2D runs (hazard integral re-computed from the recorded fields with closed-form weights).")
+LEVEL_TEXT = ("Lean 4 theorems about executable models of _run_0D and _run_1D (exact real arithmetic), tied to /repo on every run by a differential check (bit-for-bit agreement observed except np.mean). Proved in full for 0D and 1D: nucleation at the first step with F_nuc > F_rand and at no other (fold invariant of the cooling loop); E is the Riemann sum of K_v dt with K_v = J V (0D) / A simpson(J_z, z) (1D) over the supercooled mask; E is non-decreasing; the weights of scipy's simpson on a uniform grid are derived from its formula for both parities (odd: h/3[1,4,2,...,4,1]; even: last three 5h/4, h, 5h/12) and are non-negative; min <= mean <= max; min <= T_kin <= T_eq_l when K_v > 0 and T_kin = 273.15 K otherwise; the four numbers are those of the field of the break step. The same clauses are proved for the 2D model (SnowModel/Snowing2D.lean, K_v = simpson(2 pi simpson(r J, r), z), weights w_z 2 pi r w_r >= 0) through a bridge that identifies its cooling loop with the generic fold; the 2D model is tied to /repo by comparing real 2D runs (nucleation step, t_nuc, the four temperatures) and the clauses are also evaluated on the real 2D fields.")
 
 TIE = 1e-9
 
@@ -65,7 +78,10 @@ def run_impl(case):
 
 def run_model(drv, case):
     if case["dim"] == "2D":
-        return None
+        prog = su.programs(case)[0]
+        m = su.model_2d(drv, case, prog, prog["Frand"] if prog.get("Frand") is not None else su.recorded_frand(0))
+        m["is2D"] = True
+        return m
     rec = su.record_inputs(case)
     if rec.get("raise"):
         return {"raise": rec["raise"], "stage": "init"}
@@ -94,6 +110,8 @@ def compare(case, impl, model):
             dis.append(f"init exception: impl {impl['raise']} vs model {model.get('raise')}")
         return dis
     run = impl["runs"][0]
+    if model.get("is2D"):
+        return su.compare_2d(case, run, model, arrays=False)
     if (run["raise"] or None) != (model["raise"] or None):
         # a different exception may be a tie of the stop decision
         if _is_tie(model):
